@@ -364,9 +364,11 @@ pub fn check_log(layout: &Layout, log: &[Rec], real_clock: bool) -> (Vec<LV>, Lo
             (Some(p), Some(d)) => {
               st.timed_polls += 1;
               if !real_clock {
+                // overdue: any time-out of at most 1 ms; otherwise the remaining time, to the millisecond
                 let want = if *t >= p.next_wakeup { MS } else { p.next_wakeup - *t };
                 if *t >= p.next_wakeup { st.catchup_polls += 1; }
-                if *d != want {
+                let ok = if *t >= p.next_wakeup { *d <= MS } else { *d + MS >= want && *d <= want + MS };
+                if !ok {
                   v!("C11", "timeout", "C11:timeout-value",
                     format!("poll at t={} ns with time-out {} ns; the pending repeat is due at {} ns, expected time-out {} ns (tick #{})", t, d, p.next_wakeup, want, p.ticks), i);
                 }
@@ -411,6 +413,9 @@ pub fn check_log(layout: &Layout, log: &[Rec], real_clock: bool) -> (Vec<LV>, Lo
             events_this_wakeup += 1;
             if events_this_wakeup == 2 { st.wakeups_with_2plus_events += 1; }
             if !in_tablet {
+              // does the mapper act on this event? (its own view of what is held, read through the hook)
+              let held_by_mapper = refm.verif_snapshot().input_pressed_keys;
+              let acted = match e { Pressed(k) => !held_by_mapper.contains(k), Released(k) => held_by_mapper.contains(k) };
               let r = refm.step(e.clone());
               if post_off { st.post_off_steps += 1; }
               if !r.events.is_empty() { expect = Some(("step", r.events.clone())); }
@@ -421,12 +426,14 @@ pub fn check_log(layout: &Layout, log: &[Rec], real_clock: bool) -> (Vec<LV>, Lo
                   pending = Some(Pending { keys, next_wakeup: *t + (delay_ms.max(0) as u64) * MS, interval_ms, ticks: 0 });
                   last_event_ignored = false;
                 },
-                ResultingRepeat::Disabled => {
+                // any key event the mapper acts on ends the repeat, whatever the step result says (the step result
+                // itself is C09's subject); an ignored event leaves it alone
+                _ if acted => {
                   if let Some(p) = &pending { if p.ticks > 0 { st.cancellations_by_other_key += 1; } }
                   pending = None;
                   last_event_ignored = false;
                 },
-                ResultingRepeat::NoChange => { if pending.is_some() { last_event_ignored = true; } }
+                _ => { if pending.is_some() { last_event_ignored = true; } }
               }
             }
             else { st.kb_events_in_tablet_mode += 1; }
